@@ -1,0 +1,66 @@
+//go:build verif
+
+package atomic
+
+// Contracts for fvc (see /verif/DESIGN.md). Comment-only file.
+// sync.Map / sync/atomic carry assumed sequential contracts (/verif/fvc/lib/sync.spec).
+
+//@ pure hasNode(a *Counter, k string) bool = smHas[addr(a.countMap.Map)][iface(k)]
+//@ pure nodeOf(a *Counter, k string) *counterNode =
+//@     hasNode(a, k) ? unbox(smVal[addr(a.countMap.Map)][iface(k)], *counterNode) : nil
+
+// Representation invariant: every stored value is a distinct, allocated *counterNode.
+//@ pure cwf(a *Counter) bool = a != nil
+//@  && (forall k string :: hasNode(a, k) ==> typeis(smVal[addr(a.countMap.Map)][iface(k)], *counterNode) && nodeOf(a, k) != nil && allocated(nodeOf(a, k)))
+//@  && (forall k1 string, k2 string :: k1 != k2 && hasNode(a, k1) && hasNode(a, k2) ==> nodeOf(a, k1) != nodeOf(a, k2))
+
+// Abstract view: the count per key (0 for keys never touched).
+//@ pure cnt(a *Counter, k string) Int = nodeOf(a, k) == nil ? 0 : nodeOf(a, k).count
+
+//@ func Counter.getNode
+//@   tags C05
+//@   safety assert-type
+//@   requires cwf(a)
+//@   modifies smHas, smVal
+//@   ensures [C05] cwf(a)
+//@   ensures [C05] result == nodeOf(a, key)
+//@   ensures [C05] autoCreate ==> result != nil
+//@   ensures [C05] !autoCreate && !old(hasNode(a, key)) ==> result == nil && smHas == old(smHas) && smVal == old(smVal)
+//@   ensures [C05] others-untouched: forall k string :: k != key ==> nodeOf(a, k) == old(nodeOf(a, k))
+//@   ensures [C05] existing-kept: old(hasNode(a, key)) ==> result == old(nodeOf(a, key)) && smHas == old(smHas) && smVal == old(smVal)
+//@   ensures [C05] nodes-untouched: forall p *counterNode :: !fresh(p) ==> *p == old(*p)
+//@   ensures [C05] view-unchanged: forall k string :: cnt(a, k) == old(cnt(a, k))
+
+//@ func Counter.Add
+//@   tags C05
+//@   safety nil
+//@   requires cwf(a)
+//@   modifies smHas, smVal, heap(counterNode)
+//@   ensures [C05] cwf(a)
+//@   ensures [C05] result == old(cnt(a, key)) + 1
+//@   ensures [C05] view: forall k string :: cnt(a, k) == (k == key ? old(cnt(a, k)) + 1 : old(cnt(a, k)))
+
+//@ func Counter.Remove
+//@   tags C05
+//@   safety nil
+//@   requires cwf(a)
+//@   modifies smHas, smVal, heap(counterNode)
+//@   ensures [C05] cwf(a)
+//@   ensures [C05] result == old(cnt(a, key)) - 1
+//@   ensures [C05] view: forall k string :: cnt(a, k) == (k == key ? old(cnt(a, k)) - 1 : old(cnt(a, k)))
+
+//@ func Counter.Get
+//@   tags C05
+//@   safety nil
+//@   requires cwf(a)
+//@   ensures [C05] result == cnt(a, key)
+
+//@ func Counter.CheckAndAdd
+//@   params a, key, old_
+//@   tags C05
+//@   safety nil
+//@   requires cwf(a)
+//@   modifies smHas, smVal, heap(counterNode)
+//@   ensures [C05] cwf(a)
+//@   ensures [C05] cas-result: result == (old(cnt(a, key)) == old_)
+//@   ensures [C05] view: forall k string :: cnt(a, k) == ((k == key && old(cnt(a, key)) == old_) ? old(cnt(a, k)) + 1 : old(cnt(a, k)))
